@@ -391,18 +391,37 @@ def make_composites(rng, flavour):
     top.spatialLocator = grids.CoordinateLocation(origin[0], origin[1], origin[2], None)
     root = Composite("reactor")
     root.add(top)
+    ak = 0
+    tiers = rng.random() < 0.45          # a parent grid with several k layers (tiered rack): parent cell at k != 0
     if flavour == "hex":
-        sg = grids.HexGrid.fromPitch(rng.choice([16.142, 8.0, common.dyadic(rng, 2, 20, 3)]), numRings=3, armiObject=top,
-                                     cornersUp=rng.random() < 0.5, symmetry="third periodic")
+        pitch = rng.choice([16.142, 8.0, common.dyadic(rng, 2, 20, 3)])
+        cu = rng.random() < 0.5
+        if tiers:
+            nk = rng.randint(2, 5)
+            us = [list(r) for r in grids.HexGrid._getRawUnitSteps(pitch, cu)]
+            us[2][2] = common.dyadic(rng, 50, 400, 1)                      # dz / dk
+            sg = grids.HexGrid(unitSteps=tuple(tuple(r) for r in us), unitStepLimits=((-3, 3), (-3, 3), (0, nk)),
+                               armiObject=top, symmetry="third periodic")
+            ak = rng.randint(0, nk - 1)
+        else:
+            sg = grids.HexGrid.fromPitch(pitch, numRings=3, armiObject=top, cornersUp=cu, symmetry="third periodic")
     else:
-        sg = grids.CartesianGrid.fromRectangle(common.dyadic(rng, 2, 20, 3), common.dyadic(rng, 2, 20, 3), numRings=3,
-                                               isOffset=rng.random() < 0.5, armiObject=top)
+        w, h = common.dyadic(rng, 2, 20, 3), common.dyadic(rng, 2, 20, 3)
+        isOff = rng.random() < 0.5
+        if tiers:
+            nk = rng.randint(2, 5)
+            sg = grids.CartesianGrid(unitSteps=((w, 0.0, 0.0), (0.0, h, 0.0), (0.0, 0.0, common.dyadic(rng, 50, 400, 1))),
+                                     unitStepLimits=((-3, 3), (-3, 3), (0, nk)),
+                                     offset=(w / 2.0, h / 2.0, 0.0) if isOff else None, armiObject=top)
+            ak = rng.randint(0, nk - 1)
+        else:
+            sg = grids.CartesianGrid.fromRectangle(w, h, numRings=3, isOffset=isOff, armiObject=top)
     top.spatialGrid = sg
     asm = Composite("assembly")
     ai, aj = rng.randint(-3, 3), rng.randint(-3, 3)
     if (ai, aj) == (0, 0) and rng.random() < 0.8:
         ai = rng.choice([-2, 1, 3])                          # mostly away from the central cell
-    asm.spatialLocator = sg[ai, aj, 0]
+    asm.spatialLocator = sg[ai, aj, ak]
     top.add(asm)
     nb = rng.choice([1, 1, 2, 3, rng.randint(2, 6)])       # one-block assemblies included
     if rng.random() < 0.3:
@@ -535,6 +554,11 @@ def nesting_case(ctx, leafloc, label, req, impl_vals, cases, exact):
             except (NotImplementedError, ValueError):
                 pass
             ctx.count("axial-in-radial nestings with %d axial cell(s)" % min(4, len(leafloc.grid.getBounds()[2]) - 1))
+            ctx.count("axial-in-radial nestings, parent k %s 0" % ("==" if int(parent.indices[2]) == 0 else "!="))
+            if [int(v) for v in ci] != [int(a) + int(b) for a, b in zip(leafloc.indices, parent.indices)]:
+                ctx.fail("complete-indices-add-all-three", "complete indices of an axial locator = its indices + ALL of the "
+                         "parent's indices (i, j and k)", case, observed=ci,
+                         expected=[int(a) + int(b) for a, b in zip(leafloc.indices, parent.indices)])
         if ci != want:
             ctx.fail("complete-indices-axial-only", "complete indices add the parent's indices only for an axial grid "
                      "nested in a non-axial grid", case, observed=ci, expected=want)
